@@ -1,6 +1,6 @@
 (* Proofs/SideC02.v — side conditions tying Model/Pipe.v to the values regenerated from /repo (Gen/C02.v):
    re-proved for the current values on every run. *)
-From TX Require Import Model.Pipe Proofs.Pipe Proofs.PipeTop Gen.C02.
+From TX Require Import Model.Pipe Model.PipeLocks Proofs.Pipe Proofs.PipeTop Proofs.PipeLocks Gen.C02.
 From Coq Require Import ZArith ZifyN ZifyNat ZifyBool Lia.
 Open Scope N_scope.
 
@@ -29,4 +29,32 @@ Qed.
 Lemma pinned_refuses_full_buffer : forall l p b, In (l, p, b) limiter_table -> p = true -> b < CopyBufferSize ->
   limiter_ok Pinned (Some b) false CopyBufferSize = false.
 Proof. intros l p b _ _ H. apply pinned_limiter_fails. exact H. Qed.
+
+(* the retry decision probed on the real CopyWithControl: only errors that are temporary are retried, and the decision is the
+   model's rkind_of_error (retried exactly when the error is both a timeout and temporary) for all four combinations *)
+Lemma retry_table_only_temporary :
+  forallb (fun row => let '(tmo, tmp, retried) := row in implb retried tmp) retry_table = true.
+Proof. vm_compute. reflexivity. Qed.
+Lemma retry_table_is_model :
+  length retry_table = 4%nat /\
+  forallb (fun row => let '(tmo, tmp, retried) := row in
+                      Bool.eqb retried (match rkind_of_error tmo tmp with RTimeout => true | _ => false end)) retry_table = true /\
+  map (fun row => fst row) retry_table = [(false, false); (false, true); (true, false); (true, true)].
+Proof. vm_compute. repeat split; reflexivity. Qed.
+
+(* the lock paths read from the syntax tree: no method of the bridge acquires a mutex while it holds one ... *)
+Definition bridge_lock_paths : list (list lock_op) :=
+  [lock_path_Bridge_Close; lock_path_Bridge_SetSourceConnection; lock_path_Bridge_SetTargetConnection; lock_path_dynamicSourceWriter_Write].
+Lemma lock_paths_single_hold :
+  forallb single_hold bridge_lock_paths = true /\ forallb (fun p => negb (Nat.eqb (length p) 0)) bridge_lock_paths = true.
+Proof. vm_compute. split; reflexivity. Qed.
+
+(* ... hence no interleaving of any number of Close / SetSourceConnection / SetTargetConnection / dynamicSourceWriter.Write
+   calls can deadlock on these mutexes *)
+Lemma bridge_lock_paths_never_deadlock : forall (mix : list (list lock_op)) sched,
+  (forall p, In p mix -> In p bridge_lock_paths) -> ~ deadlock (lk_run mix sched).
+Proof.
+  intros mix sched Hsub. apply no_deadlock_single_hold. apply forallb_forall. intros p Hp.
+  destruct lock_paths_single_hold as [H _]. rewrite forallb_forall in H. apply H, Hsub, Hp.
+Qed.
 Close Scope N_scope.
